@@ -18,9 +18,13 @@ SIZES = [1, 2, 7, 8, 12, 16, 17, 24, 31, 32, 33, 40, 64, 65, 100, 255, 256, 1000
 ALIGNS = [1, 1, 2, 4, 8, 8, 16, 32, 64]
 
 
+SMART_OK = {"leaf", "leaf_n", "direct", "ref", "ts", "aligned", "tracked", "seg2", "fb", "mra"}
+
+
 def comp_cmds(rng, name, n):
     cmds = []
     mixed = name in ("fb_pool", "fb_apool", "fb_coll")
+    smart = name in SMART_OK
     if name in COMPS_FB and not mixed:
         cmds.append("fill 1 %d" % rng.choice([0, 16, 40, 64, 100]))
         if rng.random() < 0.7:
@@ -41,6 +45,10 @@ def comp_cmds(rng, name, n):
             cmds.append("tn %d %d" % (sz, al))
         elif r < 0.58:
             cmds.append("ta %d %d %d" % (rng.choice([1, 2, 3]), min(sz, 256), al))
+        elif r < 0.66 and smart:
+            cmds.append("%s %d %d" % (rng.choice(["uq", "uq", "ua", "sh", "ub"]), rng.choice([0, 1, 2, 3, 4, 4]), rng.choice([1, 2, 3, 7])))
+        elif r < 0.70 and smart:
+            cmds.append("rs %d" % rng.randint(0, 10))
         elif r < 0.82:
             cmds.append("d %d" % rng.randint(0, 30))
         elif r < 0.95:
